@@ -23,6 +23,8 @@ Conforms(in, obs) ==
   /\ "panic" \notin DOMAIN obs /\ "exit" \notin DOMAIN obs
   /\ Len(obs.res) = Len(in.tests)
   /\ \A i \in DOMAIN in.tests : TestOK(in, in.tests[i], obs.res[i], obs)
+  \* the same tests in one evaluation of the entry give the same answers (each on its own timestamp)
+  /\ ("together" \in DOMAIN obs => obs.together = obs.res)
 
 Describe(in) == [note |-> "expected values depend on the timestamps in the observation; see the replay"]
 Beyond(in) == FALSE
